@@ -95,6 +95,16 @@ pub fn gen_patch(rng: &mut Rng, tier: Tier) -> Vec<u8> {
                     &b"${PREFIX}/bin $NetBSD$"[..],
                 ])
                 .to_vec(),
+            15 if rng.chance(1, 2) => rng
+                .pick(&[
+                    &b"$NetBSD: patch-ab,v 1.3 2003/05/06 jos\xe9 Exp $"[..],
+                    &b"\xff $NetBSD$"[..],
+                    &b"$NetBSD\x80"[..],
+                    &b"/* r\xe9sum\xe9 $NetBSD: x $ */"[..],
+                    "$NetBSD: patch-ac,v 1.1 jos\u{e9} Exp $".as_bytes(),
+                    "\u{65e5}\u{672c} $NetBSD$ \u{1f600}".as_bytes(),
+                ])
+                .to_vec(),
             15 => b"$NetBSD$NetBSD$".to_vec(),
             16 => b"$NetBS$NetBS".to_vec(),
             0 => b"$NetBSD$".to_vec(),
@@ -523,7 +533,7 @@ impl Property for C13 {
     }
 
     fn work_factor(&self) -> Option<u64> {
-        Some(128)
+        Some(256)
     }
     fn rule(&self) -> String {
         "Each run draws (entry point, algorithm, byte string, read script) from one PRNG; the script \
